@@ -353,7 +353,22 @@ def ref_parse(src, multiline=False):
 def upper_names(prog):
     return [[norm(ascii_upper(S(c[0]))), c[1]] for c in prog]
 
-def judge(src, out, exact_names_of=None):
+def rstrip_in_strings(prog):
+    """the program with, in every string literal, the whitespace run directly before each line feed removed
+    (what per-line rstrip() in parse_stream does to a literal that runs over a line end: finding F33)"""
+    def t(tok):
+        if tok[0] == 1:
+            v = S(tok[1])
+            if '\n' in v:
+                segs = v.split('\n')
+                v = '\n'.join([x.rstrip() for x in segs[:-1]] + [segs[-1]])
+            return Str(v)
+        if tok[0] == 4:
+            return Fn([t(x) for x in tok[1]])
+        return tok
+    return [[c[0], [[t(x) for x in g] for g in c[1]]] for c in prog]
+
+def judge(src, out, exact_names_of=None, stream=False):
     """the property on one parse outcome -> None or a message"""
     r = ref_parse(src)
     if out == [2] or (isinstance(out, list) and out[:1] == [2]):
@@ -381,6 +396,9 @@ def judge(src, out, exact_names_of=None):
         if out[0] != 0:
             return 'well-formed source rejected (line %s): expected %d commands' % (out[2] if len(out) > 2 else '?', len(r[1]))
         if upper_names(out[1]) != upper_names(r[1]):
+            if stream and upper_names(out[1]) == upper_names(rstrip_in_strings(r[1])):
+                return ('F33-shape: parse_stream / parse_file strip the whitespace that stands directly before a line end '
+                        'INSIDE a string literal that runs over the line end (line.rstrip() before strip_comment)')
             return 'parsed program differs from the program the source spells'
         return None
     _, lo, hi, kind, sw = r
@@ -459,20 +477,22 @@ def oracle(fn, arg, out):
         if S(out[1]) != exp:
             return 'strip_comment(%r) = %r, the comment starts %s' % (line, S(out[1]), 'at %d' % len(exp) if exp != line else 'nowhere')
         return None
-    if fn in (2, 4):
+    if fn == 2:
         return judge(S(arg[0]), out)
+    if fn == 4:
+        return judge(S(arg[0]), out, stream=True)
     if fn == 9:
         # io.StringIO does not translate line ends: a bare CR is not a line end for the stream
         if 13 in arg[0]:
             return None if out != [2] else 'a foreign (non-pybtex) exception escaped the parser'
-        return judge(S(arg[0]), out)
+        return judge(S(arg[0]), out, stream=True)
     if fn == 3:
         lines = [S(l) for l in arg[0]]
         ok = all(l.endswith('\n') and not any(c in '\n\r' for c in l[:-1]) for l in lines[:-1]) and \
              (not lines or not any(c in '\n\r' for c in lines[-1].rstrip('\n')) and lines[-1].count('\n') <= 1)
         if not ok:
             return None if out != [2] else 'a foreign (non-pybtex) exception escaped the parser'
-        return judge(''.join(lines), out)
+        return judge(''.join(lines), out, stream=True)
     if fn == 5:
         prog, gaps = arg
         src = py_print(gaps, prog)
@@ -487,7 +507,15 @@ def oracle(fn, arg, out):
         return judge(src, res)
     return None
 
-KNOWN_SIGNATURES = {}
+def _f33(kind, fn, arg, detail):
+    """F33: only the stream / file entry points (fn 3, 4, 9), only an accepted program, and the only difference from the
+    program the source spells is the loss of whitespace runs directly before a line feed inside string literals"""
+    if kind != 'oracle' or fn not in (3, 4, 9) or not isinstance(detail, str) or not detail.startswith('F33-shape'):
+        return False
+    out = FUNCS[fn][1](arg)
+    m = oracle(fn, arg, out)
+    return bool(m) and m.startswith('F33-shape')
+KNOWN_SIGNATURES = {'F33': _f33}
 
 def replay_known(finding):
     pin = finding.get('pinned')
@@ -524,7 +552,8 @@ ASSUMPTIONS = ['letters and digits are ASCII (DESIGN.md 2.2): str.upper of a non
                'and the regex \\d and int() accept non-ASCII digits; such characters are outside the claimed domain',
                'integer literals have at most 4300 digits (CPython refuses longer ones with a ValueError; the model says Crash there, the theorems assume the bound)',
                'function bodies nest at most 150 deep (the recursion of parse_group is unguarded; CPython raises RecursionError between 500 and 1000 levels)']
-PARTIAL = ['parse_stream / parse_file agree with parse_string: proved on printed sources (entry_points_agree); on arbitrary sources correspondence (fn 3, 4, 9) and the oracle only',
+PARTIAL = ['finding F33 (known): parse_stream / parse_file rstrip() each line before strip_comment, so whitespace directly before a line end inside a string literal that runs over the line end is lost (the theorems entry_points_agree / file_roundtrip are about programs whose string literals stay on one line)',
+           'parse_stream / parse_file agree with parse_string: proved on printed sources (entry_points_agree); on arbitrary sources correspondence (fn 3, 4, 9) and the oracle only',
            'a string literal that runs over a line end: the oracle demands the spelt program / the real line only where the two comment readings (quote parity per line, or carried over line ends) agree',
            'non-ASCII letters/digits, integer literals beyond 4300 digits and nesting beyond 150 levels are outside the claimed domain']
 
@@ -659,6 +688,7 @@ PINNED_SRC = [
     'EXECUTE {"a\nb" c}\n#',                     # F29 (fixed by 6970deb)
     'EXECUTE {"a\n\n\nb" "c\nd"}\n\nfoo',         # F29
     'EXECUTE {"a\nb"}\n{',                       # F29
+    'Integers{" \n"}', 'EXECUTE {"a \t\r\n b" "c\n \nd"}',     # F33 through parse_file / StringIO
     'EXECUTE {"a\nb"}', 'FUNCTION {f} {"x\n\ny" #1}\nREAD', 'EXECUTE {"a\nb"} % c\nREAD', 'EXECUTE {"a\nb%c"}', 'EXECUTE {"a\nb" c}\n\n#',   # string literals over line ends
     'ENTRY {a}{b}', 'ENTRY {a}{b}\n\n\n', 'read sort', 'foo', '\n\n{', 'EXECUTE {"a\nb" c}\n#',
     "EXECUTE {#-0 #007 'a ' a%b\n}", 'EXECUTE{x}%c', 'EXECUTE{x}%c\n', 'READ%', 'READ %"\nSORT',
@@ -672,6 +702,8 @@ PINNED_SRC = [
 
 def gen(tier, rng):
     q = tier == 'quick'
+    yield ('pinned', 3, [['Integers{" \n', '"}']])                                    # F33
+    yield ('pinned', 3, [['% header\n', 'Read\n', 'Integers{"two \n', '  lines"#42}\n']])   # F33
     for s in PINNED_SRC:
         yield ('pinned', 2, [s]); yield ('pinned', 9, [s]); yield ('pinned', 4, [s])
         yield ('pinned', 6, [s]); yield ('pinned', 8, [s])
